@@ -120,7 +120,10 @@ impl Compiler
 	{
 		// Two modules cannot both define a function of the same name for the
 		// program as a whole; the linker would refuse to combine them.
-		for declaration in declarations.iter_mut()
+		// The second definition stays in place, so that the calls to it in
+		// its own module can be analyzed; the error stands beside it.
+		let mut duplicates = Vec::new();
+		for declaration in declarations.iter()
 		{
 			let duplicate = match declaration
 			{
@@ -150,9 +153,10 @@ impl Compiler
 			};
 			if let Some(error) = duplicate
 			{
-				*declaration = common::Declaration::Poison(error.into());
+				duplicates.push(common::Declaration::Poison(error.into()));
 			}
 		}
+		declarations.append(&mut duplicates);
 
 		// Sort the declarations so that the functions are at the end and
 		// the constants and structures are declared in the right order.
